@@ -26,6 +26,7 @@ mod c11;
 mod c12;
 mod c13;
 mod c14;
+mod c15;
 mod c16;
 mod c17;
 mod c18;
@@ -74,6 +75,7 @@ registry! {
     "C12" => c12::C12,
     "C13" => c13::C13,
     "C14" => c14::C14,
+    "C15" => c15::C15,
     "C16" => c16::C16,
     "C17" => c17::C17,
     "C18" => c18::C18,
